@@ -206,7 +206,9 @@ def replay(case):
         zwmodel.set_type_codes(type_codes(d))
         t = _ast.literal_eval(case["ast"])
         _, _, bad, _, _ = judge_program(d, case["name"], t, streams("thorough"), True)
-        return any(b[2]["kind"] == case["kind"] for b in bad) or (bool(bad) and case["kind"] == "crash")
+        # any violation on the same program counts as a reproduction (with the deeper inputs of the replay a defect may
+        # surface under another kind, e.g. already in the input prefix)
+        return bool(bad)
     finally:
         d.close()
 
